@@ -3406,12 +3406,22 @@ def run_memfs_single(ctx, prop, ops, nmax, n2max, cwds=("/", "/a"), tag="mem_sin
                     if op in REF_OPS:
                         # C01, first sentence, for one call: result and resulting tree equal the reference filesystem
                         pa = abs_oracle(ex, st, groups["arg0"], T_(cwd), run.tenv)
-                        if pa[0] == "err":
+                        pb = None
+                        if op in ("symlink", "move_p") and pa[0] == "ok":
+                            a1 = groups["arg1"]
+                            if op == "symlink" and not ex.decide(st, TP.is_ch(a1[0], TP.SLASH)):
+                                a1 = list(TP.parent_text(ex, st, pa[1]) or T_("/")) + T_("/") + list(a1)
+                            pb = abs_oracle(ex, st, a1, T_(cwd), run.tenv)
+                        if pb is not None and pb[0] != "ok":
+                            if pb[0] == "err":
+                                ob.prove(ex, st, "C01: %s with a second path that does not resolve (%s) fails (cwd %s)" % (op, pb[1], cwd), B(failed), cf) or \
+                                    ob.failures[-1].update(op=op, cwd=cwd, where="Memfs::" + op)
+                        elif pa[0] == "err":
                             ob.prove(ex, st, "C01: %s on a path that does not resolve (%s) fails (cwd %s)" % (op, pa[1], cwd), B(failed), cf) or \
                                 ob.failures[-1].update(op=op, cwd=cwd, where="Memfs::" + op)
                         elif pa[0] == "ok":
                             ref = ref_from_snapshot(ex, st, st.meta["before"])
-                            out, rpath = ref_apply(ex, st, ref, op, [pa[1]], groups.get("data1"))
+                            out, rpath = ref_apply(ex, st, ref, op, [pa[1]] + ([pb[1]] if pb else []), groups.get("data1"))
                             if out != "skip":
                                 ob.prove(ex, st, "C01: %s succeeds/fails as the reference filesystem does (cwd %s)" % (op, cwd),
                                          B(failed == (out == "err")), cf) or ob.failures[-1].update(op=op, cwd=cwd, where="Memfs::" + op)
@@ -3507,46 +3517,52 @@ fn fixture() -> Memfs {
 }
 
 // A plain reference tree filesystem written from the VirtualFileSystem documentation (std only, no rivia code).
-// None = directory, Some(bytes) = regular file; paths without '~' and '$' only.
+// Paths without '~' and '$' only.
+#[derive(Clone, PartialEq, Debug)]
+enum N { D, F(String), L(String) }
 #[derive(Clone)]
-struct RefFs { nodes: std::collections::BTreeMap<String, Option<String>>, cwd: String }
+struct RefFs { nodes: std::collections::BTreeMap<String, N>, cwd: String }
 impl RefFs {
     fn fixture(cwd: &str) -> RefFs {
         let mut nodes = std::collections::BTreeMap::new();
-        nodes.insert("/".to_string(), None);
-        nodes.insert("/a".to_string(), None);
-        nodes.insert("/a/b".to_string(), Some("x".to_string()));
-        nodes.insert("/b".to_string(), Some("yz".to_string()));
+        nodes.insert("/".to_string(), N::D);
+        nodes.insert("/a".to_string(), N::D);
+        nodes.insert("/a/b".to_string(), N::F("x".to_string()));
+        nodes.insert("/b".to_string(), N::F("yz".to_string()));
         RefFs { nodes, cwd: cwd.to_string() }
     }
-    fn resolve(&self, p: &str) -> Option<String> {
+    fn resolve_from(base: &str, p: &str) -> Option<String> {
         if p.is_empty() { return None; }
-        let full = if p.starts_with('/') { p.to_string() } else { format!("{}/{}", self.cwd, p) };
+        let full = if p.starts_with('/') { p.to_string() } else { format!("{}/{}", base, p) };
         let mut st: Vec<&str> = vec![];
         for c in full.split('/') {
             match c { "" | "." => {}, ".." => { st.pop(); }, x => st.push(x) }
         }
         Some(format!("/{}", st.join("/")))
     }
+    fn resolve(&self, p: &str) -> Option<String> { Self::resolve_from(&self.cwd, p) }
     fn parent(p: &str) -> String { match p.rfind('/') { Some(0) | None => "/".to_string(), Some(i) => p[..i].to_string() } }
-    fn parent_is_dir(&self, p: &str) -> bool { self.nodes.get(&Self::parent(p)) == Some(&None) }
+    fn base(p: &str) -> String { p[p.rfind('/').unwrap() + 1..].to_string() }
+    fn parent_is_dir(&self, p: &str) -> bool { self.nodes.get(&Self::parent(p)) == Some(&N::D) }
     fn has_children(&self, p: &str) -> bool { self.nodes.keys().any(|k| k != p && Self::parent(k) == p && k != "/") }
+    fn under(k: &str, p: &str) -> bool { k == p || k.starts_with(&format!("{}/", p.trim_end_matches('/'))) }
     // Ok(true) = succeeded, Ok(false) = failed, Err = outside what the documentation determines
-    fn apply(&mut self, op: &str, path: &str, data: &str) -> Result<bool, ()> {
+    fn apply(&mut self, op: &str, path: &str, arg2: &str) -> Result<bool, ()> {
         let p = match self.resolve(path) { Some(p) => p, None => return Ok(false) };
         let node = self.nodes.get(&p).cloned();
         match op {
             "mkfile" | "write_all" | "append_all" => {
                 match node {
-                    Some(None) => if p == "/" { Err(()) } else { Ok(false) },
-                    Some(Some(old)) => {
-                        if op == "write_all" { self.nodes.insert(p, Some(data.to_string())); }
-                        else if op == "append_all" { self.nodes.insert(p, Some(old + data)); }
+                    Some(N::D) => if p == "/" { Err(()) } else { Ok(false) },
+                    Some(N::L(_)) => Err(()),
+                    Some(N::F(old)) => {
+                        if op == "write_all" { self.nodes.insert(p, N::F(arg2.to_string())); }
+                        else if op == "append_all" { self.nodes.insert(p, N::F(old + arg2)); }
                         Ok(true)
                     }
                     None => {
                         if !self.parent_is_dir(&p) { return Ok(false); }
-                        self.nodes.insert(p, Some(if op == "mkfile" { String::new() } else { data.to_string() }));
+                        self.nodes.insert(p, N::F(if op == "mkfile" { String::new() } else { arg2.to_string() }));
                         Ok(true)
                     }
                 }
@@ -3556,33 +3572,59 @@ impl RefFs {
                 let mut made = vec![];
                 for c in p.split('/').filter(|c| !c.is_empty()) {
                     cur = format!("{}/{}", cur, c);
-                    match self.nodes.get(&cur) { None => made.push(cur.clone()), Some(None) => {}, Some(Some(_)) => return Ok(false) }
+                    match self.nodes.get(&cur) { None => made.push(cur.clone()), Some(N::D) => {}, Some(_) => return Ok(false) }
                 }
-                for m in made { self.nodes.insert(m, None); }
+                for m in made { self.nodes.insert(m, N::D); }
                 Ok(true)
             }
             "remove" => {
                 if node.is_none() { return Ok(true); }
                 if p == "/" { return Err(()); }
-                if node == Some(None) && self.has_children(&p) { return Ok(false); }
+                if node == Some(N::D) && self.has_children(&p) { return Ok(false); }
                 self.nodes.remove(&p);
                 Ok(true)
             }
             "remove_all" => {
                 if p == "/" { return Err(()); }
-                let pre = format!("{}/", p);
-                self.nodes.retain(|k, _| k != &p && !k.starts_with(&pre));
+                self.nodes.retain(|k, _| !Self::under(k, &p));
                 Ok(true)
             }
             "set_cwd" => { if node.is_none() { return Ok(false); } self.cwd = p; Ok(true) }
+            "symlink" => {
+                if p == "/" || node.is_some() { return Err(()); }
+                // a relative target is relative to the link's own directory
+                let t = match Self::resolve_from(&Self::parent(&p), arg2) { Some(t) => t, None => return Ok(false) };
+                if !self.parent_is_dir(&p) { return Ok(false); }
+                self.nodes.insert(p, N::L(t));
+                Ok(true)
+            }
+            "move_p" => {
+                let dst = match self.resolve(arg2) { Some(d) => d, None => return Ok(false) };
+                if node.is_none() { return Ok(false); }
+                if p == "/" { return Err(()); }
+                let fin = if self.nodes.get(&dst) == Some(&N::D) { format!("{}/{}", dst.trim_end_matches('/'), Self::base(&p)) } else { dst };
+                if Self::under(&fin, &p) { return Ok(false); }
+                if !self.parent_is_dir(&fin) { return Ok(false); }
+                match self.nodes.get(&fin) { Some(N::D) => return Err(()), _ => { self.nodes.remove(&fin); } }
+                let moved: Vec<(String, N)> = self.nodes.iter().filter(|(k, _)| Self::under(k, &p)).map(|(k, n)| (k.clone(), n.clone())).collect();
+                for (k, n) in moved {
+                    self.nodes.remove(&k);
+                    self.nodes.insert(format!("{}{}", fin, &k[p.len()..]), n);
+                }
+                Ok(true)
+            }
             _ => Err(()),
         }
     }
     fn dump(&self) -> String {
         let mut out = String::new();
         for (k, n) in &self.nodes {
-            let (kind, mode) = match n { None => ("dir".to_string(), 0o40755), Some(d) => (format!("file{:?}", Some(d)), 0o100644) };
-            out += &format!("{:?} {} {:o} {:?}\n", std::path::PathBuf::from(k), kind, mode, Some((1000u32, 1000u32)));
+            let (kind, mode) = match n {
+                N::D => ("dir".to_string(), 0o40755),
+                N::F(d) => (format!("file{:?}", Some(d)), 0o100644),
+                N::L(t) => (format!("link->{:?}", Some(std::path::PathBuf::from(t))), 0o120777),
+            };
+            out += &format!("{:?} {} {:o} {:?}\\n", std::path::PathBuf::from(k), kind, mode, Some((1000u32, 1000u32)));
         }
         out + &format!("cwd={:?}", Some(std::path::PathBuf::from(&self.cwd)))
     }
@@ -3590,7 +3632,7 @@ impl RefFs {
 '''
 
 
-REF_OPS = ("mkfile", "mkdir_p", "write_all", "append_all", "remove", "remove_all", "set_cwd")
+REF_OPS = ("mkfile", "mkdir_p", "write_all", "append_all", "remove", "remove_all", "set_cwd", "symlink", "move_p")
 
 
 def mem_replay_src(f):
@@ -3614,10 +3656,10 @@ def mem_replay_src(f):
             assert_eq!(dump(&v).split("\n[cwd]").next().unwrap(), r.dump(), "C01: the tree after %s differs from the reference filesystem's");
             let (fs, files) = keys(&v);
             assert_eq!(fs.len(), r.nodes.len(), "C01: stored entries differ from the reference filesystem's");
-            assert_eq!(files.len(), r.nodes.values().filter(|n| n.is_some()).count(), "C01: stored file contents differ from the reference filesystem's");
+            assert_eq!(files.len(), r.nodes.values().filter(|n| matches!(n, N::F(_))).count(), "C01: stored file contents differ from the reference filesystem's");
         }
     }
-''' % (rs_str(cwd), rs_str(op), rs_str(a["arg0"]), rs_str(a.get("data1", "")), op, op)
+''' % (rs_str(cwd), rs_str(op), rs_str(a["arg0"]), rs_str(a.get("data1", a.get("arg1", ""))), op, op)
     return MEM_REPLAY_PRELUDE + '''
 #[test]
 fn replay_memfs_op() {
@@ -4529,21 +4571,80 @@ def ref_apply(ex, st, ref, op, paths, data):
             return ("err", None)
         ref["cwd"] = list(p)
         return ("ok", p)
+    if op == "symlink":
+        # paths = [abs(link), abs(target anchored at the link's directory)]
+        if is_root or node is not None:
+            return ("skip", None)  # linking over something that exists: not determined by the documentation
+        if not parent_ok():
+            return ("err", None)
+        t = ref_find(ex, st, ref, paths[1])
+        ref["nodes"].append(dict(key=list(p), kind="l", content=None, alt=list(paths[1]), tkind=(t["kind"] if t else None),
+                                 mode=BV(32, False, 0o120777), uid=BV(32, False, 1000), gid=BV(32, False, 1000)))
+        return ("ok", p)
+    if op == "move_p":
+        src, dst = p, paths[1]
+        if node is None:
+            return ("err", None)
+        if is_root:
+            return ("skip", None)
+        dn = ref_find(ex, st, ref, dst)
+        final = list(dst)
+        if dn is not None and dn["kind"] == "d":
+            fb = TP.PathBufT(list(dst))
+            TP.push_text(ex, st, fb, TP.tokenize(ex, st, src)[-1][0].text)
+            final = fb.chars
+        ts, tf = TP.tokenize(ex, st, src), TP.tokenize(ex, st, final)
+        if len(tf) >= len(ts) and all(ex.decide(st, TP.tcomp_eq(a[0], b[0])) for a, b in zip(ts, tf)):
+            return ("err", None)  # onto itself or into its own subtree
+        fpar = TP.parent_text(ex, st, final)
+        fpn = ref_find(ex, st, ref, fpar) if fpar is not None else None
+        if fpn is None or fpn["kind"] != "d":
+            return ("err", None)
+        fn_ = ref_find(ex, st, ref, final)
+        if fn_ is not None:
+            if fn_["kind"] == "d":
+                return ("skip", None)  # replacing a directory: not determined by the documentation
+            ref["nodes"].remove(fn_)
+        for n in ref["nodes"]:
+            tn = TP.tokenize(ex, st, n["key"])
+            if len(tn) >= len(ts) and all(ex.decide(st, TP.tcomp_eq(a[0], b[0])) for a, b in zip(ts, tn)):
+                nb = TP.PathBufT(list(final))
+                for t in tn[len(ts):]:
+                    TP.push_text(ex, st, nb, t[0].text)
+                n["key"] = nb.chars
+        return ("ok", None)
     return ("skip", None)
 
 
 def ref_matches(ex, st, ref, snap):
     """B: the Memfs snapshot denotes exactly the reference tree"""
     from .mirsym.values import bv_bin
-    if len(ref["nodes"]) != len(snap["entries"]):
+    if len(ref["nodes"]) != len(snap["entries"]) or len([n for n in ref["nodes"] if n["kind"] == "f"]) != len(snap["files"]):
         return B(False)
     conj = [TP.path_eq_text(ex, st, ref["cwd"], snap["cwd"])]
     for n in ref["nodes"]:
         e = find_key(ex, st, snap["entries"], n["key"])
         if e is None:
             return B(False)
+        conj.append(TP.path_eq_text(ex, st, e["path"], n["key"]))
+        if n["kind"] == "l":
+            conj += [e["link"], TP.path_eq_text(ex, st, e["alt"], n["alt"]), e["dir"] if n["tkind"] == "d" else b_not(e["dir"]),
+                     e["file"] if n["tkind"] == "f" else b_not(e["file"]),
+                     bv_bin("Eq", e["mode"], n["mode"]), bv_bin("Eq", e["uid"], n["uid"]), bv_bin("Eq", e["gid"], n["gid"])]
+            if find_key(ex, st, snap["files"], n["key"]) is not None:
+                return B(False)
+            continue
         conj += [e["dir"] if n["kind"] == "d" else b_not(e["dir"]), e["file"] if n["kind"] == "f" else b_not(e["file"]), b_not(e["link"]),
                  bv_bin("Eq", e["mode"], n["mode"]), bv_bin("Eq", e["uid"], n["uid"]), bv_bin("Eq", e["gid"], n["gid"])]
+        if n["kind"] == "d":
+            if find_key(ex, st, snap["files"], n["key"]) is not None:
+                return B(False)
+            kids = ref_children(ex, st, ref, n["key"])
+            if e["names"] is None or len(e["names"]) != len(kids):
+                return B(False)
+            for k in kids:
+                kn = TP.tokenize(ex, st, k["key"])[-1][0].text
+                conj.append(b_or(*[text_eq(nm, kn) for nm in e["names"]]))
         if n["kind"] == "f":
             f = find_key(ex, st, snap["files"], n["key"])
             if f is None or len(f["data"]) != len(n["content"]):
